@@ -525,7 +525,7 @@ func (r *run) runStream() {
 	// C04: now and then a stream of free-text bodies: few dictionary entries,
 	// many bytes (the dictionary limit counts entries only)
 	fat := false
-	if prop == "C04" && !opt.NoDict {
+	if (prop == "C04" && !opt.NoDict) || prop == "C02" {
 		rate := 1500
 		if thorough {
 			rate = 500
